@@ -93,7 +93,12 @@ pub fn run(stim: &Value, rec: &Rec) {
                 cfg = if mode == "required" && stim["leave_default"].as_bool().unwrap_or(false) { cfg.client_ca_root(Certificate::from_pem(ca)) }
                       else if rev { cfg.client_auth_optional(mode == "optional").client_ca_root(Certificate::from_pem(ca)) } else { cfg.client_ca_root(Certificate::from_pem(ca)).client_auth_optional(mode == "optional") }; } }
             if rev { cfg = cfg.identity(Identity::from_pem(pem("server.pem"), pem("server.key"))); }
-            let incoming = tokio_stream::StreamExt::chain(tokio_stream::once(Ok::<_, std::io::Error>(s_io)), tokio_stream::pending());
+            // stim.accept_error_first: the listener reports a fatal accept error (EMFILE) before the connection under test arrives: the
+            // server keeps serving, and what it serves is still TLS
+            let mut items = vec![];
+            if stim["accept_error_first"].as_bool().unwrap_or(false) { items.push(Err::<crate::shim::Shim, std::io::Error>(std::io::Error::from_raw_os_error(24))); }
+            items.push(Ok(s_io));
+            let incoming = tokio_stream::StreamExt::chain(tokio_stream::iter(items), tokio_stream::pending());
             let log3 = log.clone();
             tokio::spawn(async move {
                 match tonic::transport::Server::builder().tls_config(cfg) {
